@@ -3,6 +3,7 @@
 package zzverif
 
 import (
+	"errors"
 	"hash"
 	"sort"
 )
@@ -326,4 +327,66 @@ func M_sha1_Sum(data []byte) (r [20]byte) {
 func M_md5_Sum(data []byte) (r [16]byte) {
 	copy(r[:], HashBytes(5, data, 16))
 	return
+}
+
+var errModelSyntax = errors.New("strconv: parsing: invalid syntax (model)")
+
+// M_strconv_ParseFloat: exact on plain decimal digit strings (up to 9
+// digits); for every other input the result is an arbitrary (value, error)
+// pair, i.e. an over-approximation of the real parser.
+func M_strconv_ParseFloat(s string, bitSize int) (float64, error) {
+	if len(s) > 0 && len(s) <= 9 {
+		digits := true
+		v := 0
+		for i := 0; i < len(s); i++ {
+			c := s[i]
+			if c < '0' || c > '9' {
+				digits = false
+				break
+			}
+			v = v*10 + int(c-'0')
+		}
+		if digits {
+			return float64(v), nil
+		}
+	}
+	if Bool("ParseFloat.fails") {
+		return 0, errModelSyntax
+	}
+	return Float64("ParseFloat.value"), nil
+}
+
+// M_strconv_Atoi: exact on short digit strings with optional sign, else error/arbitrary.
+func M_strconv_Atoi(s string) (int, error) {
+	if len(s) > 0 && len(s) <= 9 {
+		i := 0
+		neg := false
+		if s[0] == '-' || s[0] == '+' {
+			neg = s[0] == '-'
+			i = 1
+		}
+		if i < len(s) {
+			digits := true
+			v := 0
+			for ; i < len(s); i++ {
+				c := s[i]
+				if c < '0' || c > '9' {
+					digits = false
+					break
+				}
+				v = v*10 + int(c-'0')
+			}
+			if digits {
+				if neg {
+					v = -v
+				}
+				return v, nil
+			}
+		}
+		return 0, errModelSyntax
+	}
+	if Bool("Atoi.fails") {
+		return 0, errModelSyntax
+	}
+	return Int("Atoi.value"), nil
 }
